@@ -53,6 +53,10 @@ TRUSTED = [
     "py2lean.py translation of Schema.is_subtype (isinstance(GraphQLAbstractType/ObjectType) and is_possible_type as parameters)",
     "inspect.signature (resolver signatures enter the model as data dumped with it)",
     "re._parser (character classes of VALID_NAME_RE)",
+    "message attribution: templates read from the source (static: literals reaching add_error through %, .format, local / "
+    "module / class constants, literal sequences iterated by a for); when a message expression is not recognised (evidence key "
+    "`extraction: dynamic`) the templates are LEARNED by running the real validator on 2x30 single-violation schemas "
+    "(each modelled rule violated alone) — assumed: a violation of one rule alone produces only that rule's message",
     "by-name abstraction of object identity (dump of schema.types in registry order)",
 ]
 
@@ -152,6 +156,32 @@ def dump(schema):
 _MATCHERS = None
 
 
+_MODE = [None]
+
+
+def attribution_mode():
+    if _MODE[0] is None:
+        try:
+            _MODE[0] = X.extraction_mode()
+        except Exception:  # noqa
+            _MODE[0] = "dynamic"
+    return _MODE[0]
+
+
+def safe_fix_applied():
+    try:
+        return X.fix_applied()
+    except Exception:  # noqa  (the source changed shape: reported as a broken obligation by the framework)
+        return True
+
+
+def safe_replace_atomic():
+    try:
+        return X.replace_flags()[1]
+    except Exception:  # noqa
+        return True
+
+
 def attribute(msg):
     global _MATCHERS
     if _MATCHERS is None:
@@ -179,7 +209,8 @@ def real_validate(schema, resolver_validation=True):
 def canon_errs(errs, arity=None):
     out = []
     for r, g in errs:
-        g = list(g)
+        # learned (dynamic) matchers do not split compound operands: only the rule is compared then
+        g = list(g) if attribution_mode() == "static" else []
         if arity is not None and r in arity:
             g = g[:arity[r]]
         out.append([r, g])
@@ -966,7 +997,7 @@ def check_schema(ctx, batch, schema, labels, how, info, desc=None):
         ctx.fail("corr:unattributed-message", "an error message matches no extracted format string", detail, kind="correspondence")
 
     def cont(ans):
-        m_errs = sorted([[e["rule"], e["args"]] for e in ans.get("errors", [])])
+        m_errs = sorted([[e["rule"], e["args"] if attribution_mode() == "static" else []] for e in ans.get("errors", [])])
         arity = {}
         for r, a in m_errs:
             arity[r] = len(a)
@@ -1051,7 +1082,7 @@ def strip_resolvers(desc):
 
 def stream_valid_and_injected(ctx, batch):
     rng = ctx.rng
-    fixed = X.fix_applied()
+    fixed = safe_fix_applied()
     n = ctx.n(60, 500)
     for i in range(n):
         if ctx.time_left() < 25:
@@ -1830,7 +1861,7 @@ def op_sig(op, t):
 
 def stream_histories(ctx, batch):
     rng = ctx.rng
-    _REPLACE_ATOMIC[0] = X.replace_flags()[1]
+    _REPLACE_ATOMIC[0] = safe_replace_atomic()
     n = ctx.n(120, 1200)
     for i in range(n):
         if ctx.time_left() < 12:
@@ -1933,7 +1964,8 @@ def run(ctx):
     stream_valid_and_injected(ctx, batch)
     batch.flush()
     ctx.extra.pop("_shrunk", None)
-    if not X.fix_applied():
+    ctx.extra["extraction"] = attribution_mode()
+    if not safe_fix_applied():
         ctx.notes.append("proposed fix C13-S4-S6 is NOT in the tree under test: S4/S6 injections are expected to fail")
 
 
